@@ -2,4 +2,53 @@
 import DhtVerif.Model.Token
 namespace Dht
 
+theorem be64_length (n : Nat) : (be64 n).length = 8 := rfl
+
+theorem toUInt8_inj_of_lt {a b : Nat} (ha : a < 256) (hb : b < 256)
+    (h : a.toUInt8 = b.toUInt8) : a = b := by
+  have h' := congrArg UInt8.toNat h
+  simp only [Nat.toUInt8_eq, UInt8.toNat_ofNat'] at h'
+  omega
+
+/-- `be64` is injective on numbers below `2^64`. -/
+theorem be64_inj {a b : Nat} (ha : a < 2 ^ 64) (hb : b < 2 ^ 64) (h : be64 a = be64 b) : a = b := by
+  unfold be64 at h
+  simp only [List.cons.injEq, and_true] at h
+  obtain ⟨h7, h6, h5, h4, h3, h2, h1, h0⟩ := h
+  have e7 := toUInt8_inj_of_lt (Nat.mod_lt _ (by decide)) (Nat.mod_lt _ (by decide)) h7
+  have e6 := toUInt8_inj_of_lt (Nat.mod_lt _ (by decide)) (Nat.mod_lt _ (by decide)) h6
+  have e5 := toUInt8_inj_of_lt (Nat.mod_lt _ (by decide)) (Nat.mod_lt _ (by decide)) h5
+  have e4 := toUInt8_inj_of_lt (Nat.mod_lt _ (by decide)) (Nat.mod_lt _ (by decide)) h4
+  have e3 := toUInt8_inj_of_lt (Nat.mod_lt _ (by decide)) (Nat.mod_lt _ (by decide)) h3
+  have e2 := toUInt8_inj_of_lt (Nat.mod_lt _ (by decide)) (Nat.mod_lt _ (by decide)) h2
+  have e1 := toUInt8_inj_of_lt (Nat.mod_lt _ (by decide)) (Nat.mod_lt _ (by decide)) h1
+  have e0 := toUInt8_inj_of_lt (Nat.mod_lt _ (by decide)) (Nat.mod_lt _ (by decide)) h0
+  omega
+
+/-- Going back `d` whole intervals lowers the interval counter by exactly `d`. -/
+theorem sub_mul_div_interval (u d i : Nat) : (u - d * i) / i = u / i - d := by
+  rw [Nat.mul_comm]; exact Nat.sub_mul_div u i d
+
+/-- Equal-IP-length token preimages: the counters and secrets agree. -/
+theorem preimage_inj {ip ip' : List UInt8} {a b : Nat} {sec sec' : List UInt8}
+    (hl : ip.length = ip'.length)
+    (h : ip ++ be64 a ++ sec = ip' ++ be64 b ++ sec') :
+    ip = ip' ∧ be64 a = be64 b ∧ sec = sec' := by
+  have h1 := List.append_inj h (by simp [hl, be64_length])
+  have h2 := List.append_inj h1.1 hl
+  exact ⟨h2.1, h2.2, h1.2⟩
+
+theorem valid_eq_true_iff (H : List UInt8 → List UInt8) (s : TokenServer) (tok ip : List UInt8) (now : Nat) :
+    s.valid H tok ip now = true ↔ ∃ d, d ≤ s.maxDelta ∧ tok = s.create H ip (now - d * s.interval) := by
+  unfold TokenServer.valid
+  simp only [List.any_eq_true, List.mem_range, beq_iff_eq]
+  constructor
+  · rintro ⟨d, hd, e⟩; exact ⟨d, by omega, e.symm⟩
+  · rintro ⟨d, hd, e⟩; exact ⟨d, by omega, e.symm⟩
+
+theorem valid_eq_false_iff (H : List UInt8 → List UInt8) (s : TokenServer) (tok ip : List UInt8) (now : Nat) :
+    s.valid H tok ip now = false ↔ ∀ d, d ≤ s.maxDelta → tok ≠ s.create H ip (now - d * s.interval) := by
+  rw [← Bool.not_eq_true, valid_eq_true_iff]
+  simp
+
 end Dht
